@@ -1,6 +1,7 @@
 SPECIFICATION Spec
 CONSTANTS
-  Queries <- MCQueries
+  Classes <- MCClasses
+  Members <- MCMembers
   Log <- LogLast
   Tier = "quick"
   Stride = 16
